@@ -28,7 +28,7 @@ def sh(cmd, cwd=None, timeout=1800):
 def main():
     pid = sys.argv[1]
     name = sys.argv[2] if len(sys.argv) > 2 else pid.lower() + "-agent1"
-    src = "/tmp/wt-" + pid
+    src = os.environ.get("SEED_PREFIX", "/tmp/wt-") + pid
     rc, diff = sh("git diff", cwd=src)
     if not diff.strip():
         sys.exit("no tracked change in " + src)
